@@ -150,6 +150,11 @@ def build(prog: dict, data: dict[str, np.ndarray] | None = None) -> tuple[dict[s
             from pytato.distributed.nodes import make_distributed_recv
             v = make_distributed_recv(inp["src"], inp["comm_tag"], tuple(inp["shape"]),
                                       rp.DT[inp["dtype"]])
+        elif any(isinstance(d, str) for d in inp["shape"]):
+            # size parameters: a shape entry "n" is pt.make_size_param("n")
+            v = pt.make_placeholder(
+                inp["name"], tuple(pt.make_size_param(d) if isinstance(d, str) else d
+                                   for d in inp["shape"]), rp.DT[inp["dtype"]])
         else:
             v = pb.make_input(inp)
         pb.values.append(placed(v))
@@ -267,13 +272,26 @@ def _sha(o: Any) -> str:
     return hashlib.sha256(json.dumps(o, sort_keys=True, default=str).encode()).hexdigest()[:16]
 
 
-def _shape(shape: Any) -> list[int]:
-    out = []
-    for s in shape:
-        if not isinstance(s, (int, np.integer)):
-            raise Unsupported("symbolic shape component")
-        out.append(int(s))
-    return out
+SYMBOLIC = 100000      # a size parameter is exported as SYMBOLIC + its ordinal
+
+
+def _dim(s: Any, table: dict[str, int] | None) -> int:
+    """An axis length: the integer, or -- for a bare size parameter -- a code
+    >= SYMBOLIC that is equal for equal parameters and different from every
+    other length (all the rules need is equality of lengths, and whether a
+    length is 0 or 1).  Other symbolic lengths (n + 1, ...) are unsupported."""
+    from pytato.array import SizeParam
+    if isinstance(s, (int, np.integer)):
+        if int(s) >= SYMBOLIC:
+            raise Unsupported("huge axis")
+        return int(s)
+    if table is not None and isinstance(s, SizeParam):
+        return SYMBOLIC + table.setdefault(s.name, len(table))
+    raise Unsupported("symbolic shape component")
+
+
+def _shape(shape: Any, table: dict[str, int] | None = None) -> list[int]:
+    return [_dim(s, table) for s in shape]
 
 
 def _tl(tags: Any) -> list[str]:
@@ -289,6 +307,7 @@ class AxesExporter:
         self.pos: dict[int, int] = {}
         self.keep: list[Any] = []
         self.tags: dict[str, Any] = {}
+        self.params: dict[str, int] = {}
 
     def _see(self, tags: Any) -> list[str]:
         for t in tags:
@@ -374,7 +393,7 @@ class AxesExporter:
             ex = [t for t in x.tags if isinstance(t, ExpandedDimsReshape)]
             nd = {"kind": "reshape", "a": r(x.array),
                   "expand": [[int(d) for d in ex[0].new_dims]] if ex else []}
-            par = {"order": x.order, "newshape": _shape(x.newshape)}
+            par = {"order": x.order, "newshape": _shape(x.newshape, self.params)}
         elif isinstance(x, (BasicIndex, AdvancedIndexInContiguousAxes,
                             AdvancedIndexInNoncontiguousAxes)):
             a = r(x.array)
@@ -385,12 +404,11 @@ class AxesExporter:
                     items.append({"t": "int", "v": int(i)})
                     pitems.append(int(i))
                 elif isinstance(i, NormalizedSlice):
-                    for c in (i.start, i.stop, i.step):
-                        if not isinstance(c, (int, np.integer)):
-                            raise Unsupported("symbolic slice")
-                    items.append({"t": "nslice", "start": int(i.start), "stop": int(i.stop),
-                                  "step": int(i.step)})
-                    pitems.append([int(i.start), int(i.stop), int(i.step)])
+                    sl = [_dim(i.start, self.params), _dim(i.stop, self.params), int(i.step)]
+                    if max(sl[:2]) >= SYMBOLIC and sl != [0, sl[1], 1]:
+                        raise Unsupported("symbolic slice other than the whole axis")
+                    items.append({"t": "nslice", "start": sl[0], "stop": sl[1], "step": sl[2]})
+                    pitems.append(sl)
                 elif isinstance(i, Array):
                     items.append({"t": "arr", "n": r(i)})
                     pitems.append("arr")
@@ -413,7 +431,7 @@ class AxesExporter:
             nd = {"kind": "csr", "data": r(m.elem_values), "cols": r(m.elem_col_indices),
                   "rows": r(m.row_starts), "x": r(x.array)}
             rdn = [self._see(x.reduction_descr.tags)]
-            par = {"mshape": _shape(m.shape)}
+            par = {"mshape": _shape(m.shape, self.params)}
         elif isinstance(x, DistributedSendRefHolder):
             nd = {"kind": "alias", "a": r(x.passthrough_data), "send": r(x.send.data)}
             par = {"dest": int(x.send.dest_rank), "tag": repr(x.send.comm_tag)}
@@ -430,7 +448,7 @@ class AxesExporter:
                 raise Unsupported(f"named array of {type(cont).__name__}")
         else:
             raise Unsupported(f"node kind {type(x).__name__}")
-        nd["shape"] = _shape(x.shape)
+        nd["shape"] = _shape(x.shape, self.params)
         nd["ax"] = [self._see(a.tags) for a in x.axes]
         nd["rdn"] = rdn
         nd["kids"] = kids
@@ -559,7 +577,8 @@ def node_equations(g: dict, p: int) -> tuple[list, list, list]:
         for j in range(nd):
             if j != n["axis"]:
                 must.append((AV(n["a"], j), AV(p, j)))
-            elif n["shape"][j] == 0 or n["shift"] % n["shape"][j] == 0:
+            elif n["shape"][j] == 0 or (n["shape"][j] < SYMBOLIC
+                                        and n["shift"] % n["shape"][j] == 0):
                 may.append((AV(n["a"], j), AV(p, j)))
     elif kd == "perm":
         for i, src in enumerate(n["perm"]):
